@@ -166,7 +166,9 @@ func (r *scanner) getTimeoutRevision() uint64 {
 		return 0
 	}
 
-	// todo: if it's need to lock here to make it called concurrent-safely?
+	// compactions may run at the same time: the whole head/pop sequence is one step
+	r.compactHistories.mu.Lock()
+	defer r.compactHistories.mu.Unlock()
 	prev := &compactRecord{}
 	head := r.compactHistories.head()
 	for head != nil {
